@@ -1,7 +1,7 @@
 (* C07 proofs, part 1: the handlers of Sys/Topic.v in pieces, row/entry lookup through
    the store primitives and the cache updates, and the single-request writer laws. *)
 From Coq Require Import ZArith NArith List Bool Lia.
-From Tinode Require Import Base.Util Pure.Acs Sys.Topic Sys.TopicTac Sys.TopicFrame Sys.TopicMarks Sys.TopicAcl.
+From Tinode Require Import Base.Util Pure.Acs Sys.Topic Sys.TopicTac Sys.TopicFrame Sys.TopicMarks Sys.TopicAclC07.
 Import ListNotations.
 Open Scope Z_scope.
 
